@@ -137,6 +137,21 @@ CircuitSpec gridCircuit(Rng &r, int tier, bool obstructions, bool singleRowOnly,
     }
     s.nets.push_back(net);
   }
+  if (n > 0 && r.chance(0.15)) {
+    // a few nets with dozens of pins
+    int nHuge = (int)r.range(1, 2);
+    for (int i = 0; i < nHuge; ++i) {
+      NetSpec net;
+      int deg = (int)r.range(20, 90);
+      for (int q = 0; q < deg; ++q) {
+        int c = (int)r.below(n);
+        net.cells.push_back(c);
+        net.xo.push_back((int)r.range(0, std::max(0, s.cells[c].w)));
+        net.yo.push_back((int)r.range(0, std::max(0, s.cells[c].h)));
+      }
+      s.nets.push_back(net);
+    }
+  }
   return s;
 }
 }  // namespace
